@@ -6,13 +6,13 @@ TEXT = {
  "C01": ("Page set fidelity", "per-function proofs: page/crawled flag setters change exactly one bit, node write/read round trip, __ensure_stem_from_siblings (and add_lru in the thorough tier) preserve the trie invariant and touch no page bit of existing blocks; typestate TS-W (no stale rewrite of a cached node in traph.py). End-to-end page enumeration/counts/reports: bounded stand-in.", "3.3, 4.3, 4.5, 5 C01"),
  "C02": ("Stored LRUs findable, byte-identical, any stem length", "proved: storage back-ends implement block read/write, chunking (k = ceil(len/74)), set_stem/stem, node read (tail loop) and write (tail blocks, ghost rest) for every stem length, __ensure_stem_from_siblings preserves the TST invariants I1-I7 (BST bounds, GAP/DISJ, single reference, paths unique) for arbitrary stems; add_lru in the thorough tier. Lookup/traversal agreement end-to-end: bounded stand-in incl. the invariant evaluated on raw bytes.", "3.3, 4.1-4.5, 5 C02"),
  "C03": ("Link multigraph fidelity and symmetry", "proved: link accessors/setters of the node, node read/write; typestate TS-W at both add_*links call sites of add_links / index_batch_crawl_iter. Multigraph/symmetry end-to-end: bounded stand-in.", "4.6, 5 C03"),
- "C04": ("Longest-prefix webentity resolution", "proved: webentity accessors/setters, node read/write; typestate TS-W in the prefix edit methods. Resolution over edit histories: bounded stand-in.", "4.5, 4.7, 5 C04"),
+ "C04": ("Longest-prefix webentity resolution", "proved: follow_lru returns, besides a Fresh node spelling the query, a history naming the deepest webentity among the stem levels it matched (spec function DEEP); retrieve_webentity / retrieve_prefix answer with it and raise TraphException iff none of those levels carries one; add/remove/move_prefix change exactly that prefix, refuse an attached one, and keep the invariant (verified against add_lru's contract); TS-W, FR-STATE. That no longer stem-prefix is stored than the walk matched, and resolution over histories with automatic creations: bounded stand-in.", "4.5, 4.7, 5 C04"),
  "C05": ("Webentity page sets partition the pages", "proved: the node accessors the realm walk branches on. Partition/agreement with resolution: bounded stand-in over every webentity of every bounded state.", "5 C05"),
- "C06": ("Automatic creation follows the rules", "proved: rule-flag accessor/setters; effect contract FR-RO(get_potential_prefix). Decision ladder vs decide(E,K), rule installation fixpoint, reopen: bounded stand-in over Hyphe's rule family.", "5 C06"),
- "C07": ("Webentity network = aggregated page links", "proved: the node accessors carried down the walk. Network equality (both directions, include_auto, fast/slow, tallies): bounded stand-in.", "5 C07"),
- "C08": ("Per-webentity link queries", "proved: link accessors. Switch combinations and cited/citing sets: bounded stand-in.", "5 C08"),
- "C09": ("Page pagination", "proved: base4_append. Completeness/order/resume under insertions and token round trip: bounded stand-in.", "5 C09"),
- "C10": ("Pagelink pagination", "proved: node accessors used by the skeleton. Equality with the unpaginated answer for every cut: bounded stand-in.", "5 C10"),
+ "C06": ("Automatic creation follows the rules", "proved: rule-flag accessor/setters; rules_to_apply yields one candidate anchor per recorded rule position (the LRU itself included), deepest first; follow_lru soundness; effect contract FR-RO(get_potential_prefix). Decision ladder vs decide(E,K), rule installation fixpoint, reopen: bounded stand-in over Hyphe's rule family.", "5 C06"),
+ "C07": ("Webentity network = aggregated page links", "proved: dfs_with_webentity_iter yields each visited head with NEAR(head), the nearest webentity at or above it (every work-list entry carries the inherited one); windup_lru_for_webentity(node) = NEAR(node), so the fast map and the slow windup agree per page; link-walk soundness; PRE-STUB. Aggregation (both directions, include_auto, fast/slow as whole graphs, tallies, every page once): bounded stand-in.", "5 C07"),
+ "C08": ("Per-webentity link queries", "proved: windup_lru_for_webentity(node) = NEAR(node) and windup_lru(block) = bytes of the stored path (classification and LRU of each link end), link-walk soundness, PRE-STUB at every walk. Switch combinations and cited/citing sets: bounded stand-in.", "5 C08"),
+ "C09": ("Page pagination", "proved: base4_append; static SK-PAIR (the (prefix index, path) pair of the token is updated together, the token is built from exactly that pair, the path is reset per prefix). Completeness/order/resume under insertions and token round trip: bounded stand-in.", "5 C09"),
+ "C10": ("Pagelink pagination", "static SK-PAIR (last_path and last_path_i always updated together - the defect D3 and the seeded S-C10 are failures of this obligation), PRE-STUB, node accessors. Equality with the unpaginated answer for every cut: bounded stand-in.", "5 C10"),
  "C11": ("Close/reopen and clear", "proved: every storage write is one whole block at an aligned offset and lengths stay whole blocks; check_for_corruption <=> partial block; effect contract FR-STATE (no mutable RAM state besides the files, the header copy and the rule dict). Observational equality across reopen/clear: bounded stand-in.", "4.1, 5 C11"),
  "C12": ("Fresh increasing ids", "static contracts FR-ID (only the generator advances the counter; increment, then header write, then return; one id per creation request) and FR-STATE. Id freshness across histories/reopen/clear: bounded stand-in.", "5 C12"),
  "C13": ("Hierarchy queries, pruning never hides a child", "proved: pruning-mark accessor/setter, __ensure_stem_from_siblings preserves I9; add_lru (thorough) clears the mark on every proper ancestor; typestate TS-W. Child/parent sets for every construction order: bounded stand-in.", "3.3 I9, 5 C13"),
